@@ -575,8 +575,24 @@ class DLC(utils.EventEmitter):
         pass
 
     def on_disc_frame(self, _frame: RFCOMM_Frame) -> None:
-        # TODO: handle all states
         self.send_frame(RFCOMM_Frame.ua(c_r=1 - self.c_r, dlci=self.dlci))
+        if self.state in (DLC.State.DISCONNECTED, DLC.State.RESET):
+            return
+
+        # The peer has closed this data link: release it the same way as when the
+        # disconnection is initiated locally and acknowledged by the peer.
+        self.change_state(DLC.State.DISCONNECTED)
+        if self.connection_result:
+            self.connection_result.cancel()
+            self.connection_result = None
+        if self.disconnection_result:
+            self.disconnection_result.set_result(None)
+            self.disconnection_result = None
+        # Nothing more will be sent: release anyone waiting in drain()
+        self.tx_buffer = b''
+        self.drained.set()
+        self.multiplexer.on_dlc_disconnection(self)
+        self.emit(self.EVENT_CLOSE)
 
     def on_uih_frame(self, frame: RFCOMM_Frame) -> None:
         data = frame.information
